@@ -7,6 +7,7 @@ use std::ops::Bound;
 use std::time::Duration;
 //@@include _prelude_ids.rs
 //@@include _prelude_store.rs
+//@@include _prelude_iter.rs
 pub struct OneshotSender;
 
 verus! {
@@ -134,10 +135,46 @@ pub proof fn axiom_ctx_topic_nul_free()
     admit();
 }
 
+pub open spec fn last16(k: Seq<u8>) -> Seq<u8> { k.subrange(k.len() - 16, k.len() as int) }
+// the frame an index entry points to, if it is still stored
+pub open spec fn live_frame(st: &St, kv: Kv) -> Option<Frame> {
+    if st.parts.stream.contains_key(last16(kv_key(kv))) { Some(frame_dec(st.parts.stream[last16(kv_key(kv))])) } else { None }
+}
+pub open spec fn head_post(kvs: Seq<Kv>, st: &St, r: Option<Frame>) -> bool {
+    match r {
+        Some(f) => exists|i: int| 0 <= i < kvs.len() && live_frame(st, #[trigger] kvs[i]) == Some(f)
+            && forall|j: int| 0 <= j < i ==> live_frame(st, #[trigger] kvs[j]) is None,
+        None => forall|j: int| 0 <= j < kvs.len() ==> live_frame(st, #[trigger] kvs[j]) is None,
+    }
+}
+
+// ghost-argument rules applied to every extracted piece below (insertions only): reads get a
+// shared view of the ghost store, effects get the mutable one
+//@@ default_after_all: .commit( ==> Tracked(st),
+//@@ default_after_all: .persist( ==> Tracked(st),
+//@@ default_after_all: .unwrap().insert( ==> Tracked(st),
+//@@ default_after_all: .unwrap().remove( ==> Tracked(st),
+//@@ default_after_all: .contains( ==> Tracked(&*st),
+//@@ default_after_all: .get( ==> Tracked(&*st),
+//@@ default_after_all: .prefix( ==> Tracked(&*st),
+//@@ default_after_all: .range( ==> Tracked(&*st),
+//@@ default_after_all: .head( ==> Tracked(&*st),
+//@@ default_after_all: .insert_frame( ==> Tracked(st),
+//@@ default_after_all: self.remove( ==> Tracked(st),
+//@@ default_after_all: store.remove( ==> Tracked(st),
+//@@ default_after_all: gc_tx.send( ==> Tracked(st),
+//@@ default_after_all: broadcast_tx.send( ==> Tracked(st),
+//@@ default_after_all: scru128::new( ==> Tracked(st),
+//@@ default_after_all: frame_partition.insert( ==> Tracked(st),
+//@@ default_after_all: idx_topic.insert( ==> Tracked(st),
+//@@ default_after_all: idx_context.insert( ==> Tracked(st),
+//@@ default_after_all: frame_partition.remove( ==> Tracked(st),
+//@@ default_after_all: idx_topic.remove( ==> Tracked(st),
+//@@ default_after_all: idx_context.remove( ==> Tracked(st),
+
 impl Store {
 //@@ item file=src/store/mod.rs fn=get impl=Store ret=r
 //@@ after_all: pub fn get(&self, ==> Tracked(st): Tracked<&St>,
-//@@ after_all: .get( ==> Tracked(st),
 //@@ closure_spec: .map(|value| ==> -> (fr: Frame) ensures fr == frame_dec(slice_bytes(&value))
 //@@ spec
     requires store_wf(self),
@@ -151,8 +188,6 @@ impl Store {
 //@@ item file=src/store/mod.rs fn=insert_frame impl=Store ret=r
 //@@ rewrite: crate::error::Error ==> ! Error
 //@@ after_all: pub fn insert_frame(&self, ==> Tracked(st): Tracked<&mut St>,
-//@@ after_all: .commit( ==> Tracked(st),
-//@@ after_all: .persist( ==> Tracked(st),
 //@@ spec
     requires store_wf(self), topic_bytes(frame).len() <= MAX_TOPIC(),
     ensures
@@ -173,13 +208,25 @@ impl Store {
     proof { assert(batch_ops(&batch) =~= insert_ops(frame)); } //# store.insert_frame.three_entries
 //@@ end
 
+//@@ item file=src/store/mod.rs fn=head impl=Store ret=r
+//@@ after_all: pub fn head(&self, ==> Tracked(st): Tracked<&St>,
+//@@ closure_spec: .find_map(|kv| ==> -> (o: Option<Frame>) requires kv is Ok && kv_key(kv).len() >= 16 ensures o == live_frame(st, kv)
+//@@ spec
+    requires store_wf(self), topic.spec_bytes().len() <= MAX_TOPIC(),
+        // representation invariant (established by insert_frame / remove): index keys end in a 16-byte id
+        forall|k: Seq<u8>| st.parts.idx_topic.contains_key(k) ==> k.len() >= 16,
+    ensures
+        // scans exactly the prefix ctx||topic||0x00 of the topic index, newest first, and returns the
+        // first entry whose frame still exists -- id taken from the LAST 16 bytes of the key (C05)
+        exists|kvs: Seq<Kv>| is_scan(kvs, st.parts.idx_topic, |k: Seq<u8>| starts_with(k, topic_prefix(id_u128(context_id), topic.spec_bytes())))
+            && head_post(kvs.reverse(), st, r), //# store.head.reverse_prefix_scan_first_live
+//@@ prologue
+    broadcast use axiom_key_bytes_vec;
+//@@ end
+
 //@@ item file=src/store/mod.rs fn=remove impl=Store ret=r
 //@@ rewrite: crate::error::Error ==> ! Error
 //@@ after_all: pub fn remove(&self, ==> Tracked(st): Tracked<&mut St>,
-//@@ after_all: self.get( ==> Tracked(&*st),
-//@@ after_all: .commit( ==> Tracked(st),
-//@@ after_all: .persist( ==> Tracked(st),
-//@@ after_all: .unwrap().remove( ==> Tracked(st),
 //@@ spec
     requires store_wf(self),
         old(st).parts.stream.contains_key(id_bytes(*id)) ==> topic_bytes(&stored_frame(old(st), *id)).len() <= MAX_TOPIC(),
@@ -204,12 +251,6 @@ impl Store {
 //@@ item file=src/store/mod.rs fn=append impl=Store ret=r
 //@@ rewrite: crate::error::Error ==> ! Error
 //@@ after_all: pub fn append(&self, ==> Tracked(st): Tracked<&mut St>,
-//@@ after_all: scru128::new( ==> Tracked(st),
-//@@ after_all: .unwrap().insert( ==> Tracked(st),
-//@@ after_all: .contains( ==> Tracked(&*st),
-//@@ after_all: self.insert_frame( ==> Tracked(st),
-//@@ after_all: self.gc_tx.send( ==> Tracked(st),
-//@@ after_all: self.broadcast_tx.send( ==> Tracked(st),
 //@@ spec
     requires store_wf(self), topic_bytes(&frame).len() <= MAX_TOPIC(),
     ensures
